@@ -176,6 +176,12 @@ Definition mon_drv_indep (ins : list N) : bool :=
 
 Definition queue_monitor (k : N) (ins : list N) : list N :=
   if k =? 160 then [b2n (mon_safe ins)] else
+  (* kind 163 (C03 / C04): [buffers; queue size; class; is QueueFull; shares; state unchanged]: a chain longer than the
+     queue is refused with QueueFull, shares nothing and changes nothing *)
+  if k =? 163 then match ins with
+                   | [n; size; class; full; shares; same] =>
+                       [b2n (implb (size <? n) ((class =? 1) && (full =? 1) && (shares =? 0) && (same =? 1)))]
+                   | _ => [77777] end else
   if k =? 165 then [b2n (mon_drv_safe ins)] else
   if k =? 166 then [b2n (mon_drv_indep ins)] else
   (* kind 161 (C03): [pending at the cursor; the used element names the token; the submission is the token's; consumed]:
